@@ -1026,9 +1026,9 @@ class PGPMessage(Armorable, PGPObject):
                     ops.nested = True
                 yield ops
 
+            # a modification detection code packet left over from decryption belongs to the encrypted container
+            # it came out of, not to this message
             yield self._message
-            if self._mdc is not None:  # pragma: no cover
-                yield self._mdc
 
             for sig in self._signatures:
                 yield sig
